@@ -1322,8 +1322,7 @@ def _run(ck, suds, proof_ok):
 
     for k, (label, doc) in enumerate(grid):
         data = render_doc(doc, sysid_of)
-        entries = generic_entries if (thorough or True) else generic_entries[:3]
-        for entry in entries:
+        for entry in generic_entries:
             if not thorough and entry in ("reader-cache", "client-msg", "reader-transport") and k % 3:
                 continue
             o = run_generic(entry, doc, data, k)
